@@ -311,6 +311,7 @@ type vGen struct {
 	r       *rand.Rand
 	nextReq int
 	keyBase int
+	keyStep int // distance between the keys of one sequence: 1, or the fast-table size (all keys of the sequence share one fast slot)
 	nkeys   int
 	nids    int
 	nconn   int
@@ -320,9 +321,25 @@ type vGen struct {
 	whint   func(key int) (int, bool, bool) // LockId of a live queued request of the key, whether it is in the long table
 }
 
+func (g *vGen) step() int {
+	if g.keyStep <= 0 {
+		return 1
+	}
+	return g.keyStep
+}
+
+// vKeyStep: one sequence in three puts its keys into the SAME slot of the lock-free fast key table (GetOrNewLockManager's
+// fastHash % fastKeyCount), so that the slow path (map under mGlock) and slot hand-over between keys are exercised.
+func vKeyStep(r *rand.Rand, db *LockDB) int {
+	if r.Intn(3) == 0 && db.fastKeyCount > 1 {
+		return int(db.fastKeyCount)
+	}
+	return 1
+}
+
 func (g *vGen) lockOp() vOp {
 	r := g.r
-	o := vOp{kind: 'L', req: g.nextReq, conn: 1 + r.Intn(g.nconn), lockId: 1 + r.Intn(g.nids), key: g.keyBase + r.Intn(g.nkeys)}
+	o := vOp{kind: 'L', req: g.nextReq, conn: 1 + r.Intn(g.nconn), lockId: 1 + r.Intn(g.nids), key: g.keyBase + g.step()*r.Intn(g.nkeys)}
 	g.nextReq++
 	o.flag = vPick(r, []int{0, 1, 2, 3, 8}, []int{70, 6, 10, 4, 10})
 	o.tflag = vPick(r, []int{0, 0x40, 0x10, 0x200, 0x210, 0x2000}, []int{62, 4, 16, 10, 4, 4})
@@ -382,7 +399,7 @@ func (g *vGen) lockOp() vOp {
 
 func (g *vGen) unlockOp() vOp {
 	r := g.r
-	o := vOp{kind: 'U', req: g.nextReq, conn: 1 + r.Intn(g.nconn), lockId: 1 + r.Intn(g.nids), key: g.keyBase + r.Intn(g.nkeys)}
+	o := vOp{kind: 'U', req: g.nextReq, conn: 1 + r.Intn(g.nconn), lockId: 1 + r.Intn(g.nids), key: g.keyBase + g.step()*r.Intn(g.nkeys)}
 	g.nextReq++
 	o.flag = vPick(r, []int{0, 1, 2, 3}, []int{70, 12, 12, 6})
 	o.rcount = vPick(r, []int{0, 1, 2}, []int{50, 40, 10})
@@ -533,9 +550,14 @@ func vEngineRun(t *testing.T, mode string, profileOf func(i int) int, opsPer int
 		g.nkeys = 1 + r.Intn(2)
 		g.nids = 2 + r.Intn(3)
 		g.keyBase = 10 * (it + 1)
+		g.keyStep = vKeyStep(r, v.db)
+		if g.keyStep > 1 {
+			g.nkeys = 2 + r.Intn(2)
+			out.stat("keys-share-fast-slot")
+		}
 		x := &vRun{v: v, g: g}
 		for k := 0; k < g.nkeys; k++ {
-			x.keys = append(x.keys, g.keyBase+k)
+			x.keys = append(x.keys, g.keyBase+k*g.step())
 		}
 		x.mon = vNewMonitor(out, x)
 		g.statf = out.stat
